@@ -252,11 +252,17 @@ func (s *Server) createAllocationManager(
 }
 
 func (s *Server) readLoop(conn net.PacketConn, allocationManager *allocation.Manager, tlsState *tls.ConnectionState) {
-	// The buffer holds the largest UDP payload, so that no transport ever has
-	// to cut a read short (some report that as an error, which would end this
-	// loop for every client): a datagram of inboundMTU bytes or more is
-	// recognised by its length and dropped below.
-	buf := make([]byte, max(s.inboundMTU, math.MaxUint16))
+	// On a datagram socket the buffer holds the largest UDP payload, so that no
+	// transport ever has to cut a read short (some report that as an error,
+	// which would end this loop for every client): a datagram of inboundMTU
+	// bytes or more is recognised by its length and dropped below. A stream
+	// connection has one such loop per client and needs no more than
+	// inboundMTU: STUNConn reports the size of the frame, however long.
+	size := s.inboundMTU
+	if _, isStream := conn.(*proto.STUNConn); !isStream {
+		size = max(size, math.MaxUint16)
+	}
+	buf := make([]byte, size)
 	for {
 		n, addr, err := conn.ReadFrom(buf)
 		switch {
